@@ -48,6 +48,9 @@ type Config struct {
 	HolderTier    []int  `json:"holder_tier"`         // per user: -1 none, else tier index 0..5 (value exactly at tier), 6+ = just below tier k-6
 	WithPrices    bool   `json:"with_prices"`         // oracle prices present at genesis
 	UserFunds     string `json:"user_funds"`          // hub-side initial balance per bridged denom (backed by pre-locked custody)
+	// the bridge has been running for a while: batch nonces on Ethereum and BSC continue from here (byte and word
+	// boundaries of the counter are a few batches away)
+	BatchNonceStart uint64 `json:"batch_nonce_start,omitempty"`
 	// SignedSignerSetTxsWindow in blocks (0 = the default 10000, under which the pruning of old signer sets never runs in a simulated history)
 	SignerSetWindow uint64 `json:"signer_set_window,omitempty"`
 }
@@ -289,6 +292,9 @@ func GenConfig(r *rand.Rand, profile string) Config {
 	}
 	if r.Intn(2) == 0 {
 		c.SignerSetWindow = pick(r, []uint64{1, 2, 5, 15})
+	}
+	if r.Intn(4) == 0 {
+		c.BatchNonceStart = pick(r, []uint64{250, 253, 65530, 4294967290})
 	}
 	return c
 }
